@@ -166,6 +166,28 @@ def seg_unknown(job):
         return ('exc ' + vlib.exc_name(e), False)
 
 
+def interleaved(job):
+    """(version, structure, text, S, order): the same text validated against the standard structure and against a reference of the
+    SAME name that forbids the top-level segment S, one after the other in one process — validate() is an observation of (message,
+    reference): what it says cannot depend on what the process validated before (a memo keyed on names — seed C04-h — shows here)"""
+    import hl7apy, profiles
+    from hl7apy.parser import parse_message
+    v, mt, t, S, order = job
+    lib = hl7apy.load_library(v)
+    P = profiles.make_profile(lib, mt, [('F', 'm', mt, S)])
+
+    def val(prof):
+        try:
+            m = parse_message(t, validation_level=vlib.level(False), message_profile=P if prof else None, find_groups=False)
+            before = m.to_er7()
+            r = m.validate(return_errors=True)
+            return sorted(impl.canon_err(e) for e in r.errors) + ([] if m.to_er7() == before else ['ENCODING-CHANGED'])
+        except Exception as e:  # noqa
+            return ['exc ' + vlib.exc_name(e)]
+    seq = [False, True, False, True] if order == 'standard-first' else [True, False, True, False]
+    return [(p, val(p)) for p in seq]
+
+
 def run(tier, seed):
     import hl7apy
     chk = vlib.Check('C04', tier, seed)
@@ -343,6 +365,38 @@ def run(tier, seed):
         else:
             chk.nontrivial.add((v, S, 'unknown-field'))
     chk.dist['fresh_segment_unknown_field'] = {'cases': len(sjobs), 'open_ended': nopen}
+    # the same text against two references of one name, interleaved
+    ijobs, seen_st = [], set()
+    for c in cases:
+        if c[2] != 'conforming-all' or (c[0], c[1]) in seen_st or c[0] == '2.1':
+            continue
+        lib = hl7apy.load_library(c[0])
+        top = [r[0] for r in lib.MESSAGES[c[1]][1] if gen.is_seq(r) and len(r) == 4 and r[3] == 'SEG' and r[0] != 'MSH']
+        lines3 = [l[:3] for l in c[3].split('\r')]
+        present = [n for n in top if n in lines3 and n not in ex.get(c[0], [])]
+        if present:
+            seen_st.add((c[0], c[1]))
+            ijobs.append((c[0], c[1], c[3], rng.choice(present), 'standard-first' if len(ijobs) % 2 == 0 else 'profile-first'))
+    ijobs = ijobs[:40 if tier == 'quick' else 100000]
+    for job, out in zip(ijobs, vlib.pmap(interleaved, ijobs, chunk=1)):
+        chk.evals += 1
+        v, mt, t, S, order = job
+        rep = {'api': 'parse_message(text, find_groups=False).validate(return_errors=True) and the same with message_profile = the standard structure minus one segment, interleaved in one process',
+               'version': v, 'structure': mt, 'text': t, 'profile_forbids': S, 'order': order}
+        std = [o for p, o in out if not p]
+        prof = [o for p, o in out if p]
+        names_s = lambda errs: any(e.startswith('invalid-children:%s:' % mt) and S in e.split(':')[2].split(',') for e in errs)
+        if std[0] != std[1] or prof[0] != prof[1]:
+            chk.fail(None, {'clause': 'validate() is a deterministic observation: the same message against the same reference, validated twice with another reference in between',
+                            'standard': std, 'profile': prof, **rep}, rep)
+        elif any(e.startswith('exc ') for e in std[0] + prof[0]):
+            chk.notes.append('interleaved: %s %s %s' % (v, mt, (std[0] + prof[0])[:2]))
+        elif names_s(std[0]) or not names_s(prof[0]):
+            chk.fail(None, {'clause': 'a child the reference does not allow is reported, one it allows is not — whatever was validated before',
+                            'standard_reports_%s' % S: names_s(std[0]), 'profile_reports_%s' % S: names_s(prof[0]), 'standard': std[0][:6], 'profile': prof[0][:6], **rep}, rep)
+        else:
+            chk.nontrivial.add((v, mt, 'interleaved'))
+    chk.dist['interleaved_references'] = len(ijobs)
     chk.dist['result_kinds'] = kinds
     chk.dist['cases'] = len(cases)
     chk.dist['api_mutations'] = len(muts)
